@@ -304,7 +304,9 @@ pub fn run(ctx: &Ctx) -> (Acc, Report) {
     }
     // the secret as an operator may have stored it: with a trailing line break, a leading blank, a tab (requests are still
     // signed with the clean secret, so these take the mismatch paths)
-    for (shape, stored) in [("trailing-newline", format!("{SK}\n")), ("leading-blank", format!(" {SK}")), ("trailing-tab-and-blank", format!("{SK}\t "))] {
+    // ... and secrets much longer than the usual 40 characters (beyond any fixed-size buffer: 125, 200 and 1000 bytes), which
+    // begin with the text searched for
+    for (shape, stored) in [("trailing-newline", format!("{SK}\n")), ("leading-blank", format!(" {SK}")), ("trailing-tab-and-blank", format!("{SK}\t ")), ("length-125", format!("{SK}{}", "Z".repeat(125 - SK.len()))), ("length-200", format!("{SK}{}", "Z".repeat(200 - SK.len()))), ("length-1000", format!("{SK}{}", "Z".repeat(1000 - SK.len())))] {
         for access in [AccessMode::None, AccessMode::Allow] {
             cfgs.push((format!("auth=true(secret stored with a {shape}) {access:?} host=false None"), SvcCfg { keys: Some(vec![(AK.into(), stored.clone()), (AK2.into(), SK2.into())]), access, ..Default::default() }));
         }
@@ -341,6 +343,7 @@ pub fn run(ctx: &Ctx) -> (Acc, Report) {
                 outputs.push(("response-head", head));
                 outputs.push(("response-body", r.body()));
             } else {
+                // (a panic's message and location, or the transport error's text: what a caller, a panic hook or stderr receives)
                 outputs.push(("call-result", out.verdict().into_bytes()));
             }
             outputs.push(("backend-visible-request", backend_dbg.join("\n").into_bytes()));
